@@ -161,6 +161,8 @@ def gen(tier, seed):
             mods.append(emit(f'm{n:04d}', f'{S.shape_id(sh)}/copy=0/generic header <G, const N> where G: Copy at <u8, 3>', sh, False)); n += 1
     finally:
         model.TYPE_WRAP = None
+    for sh in [('struct', [('tuple', ['b'] * S.WIDE)]), ('struct', [('named', ['b', 'u'] * 6 + ['b'])]), ('enum', [('unit', []), ('tuple', ['u'] * S.WIDE)])]:
+        mods.append(emit(f'm{n:04d}', f'{S.shape_id(sh)}/copy=0/wide', sh, False)); n += 1
     mods.append(union_module(f'm{n:04d}')); n += 1
     mods.append(generic_module(f'm{n:04d}')); n += 1
     decl, anyv, vidx = S.big_enum('Clone')
